@@ -89,7 +89,7 @@ def gen_ic(rng, n, edges, sir, modes=('rho', 'default', 'sets', 'sets', 'sets'))
             else:
                 nr = rng.randint(1, max(1, (n - ni) // 2)); R = rest[:nr]; rest = rest[nr:]
         if any(deg[u] > 0 for u in rest):
-            return {'mode': 'sets', 'I': I, 'R': R}
+            return {'mode': 'sets', 'I': I, 'R': R, 'form': rng.choice(['list', 'list', 'tuple', 'set', 'ndarray', 'keys'])}
     return {'mode': 'rho', 'rho': '1/4'}
 
 
@@ -226,9 +226,19 @@ def _ickw(o, labels, sir):
         return {'rho': float(F(ic['rho']))}
     if ic['mode'] == 'default':
         return {}
-    kw = {'initial_infecteds': [labels[u] for u in ic['I']]}
+    def shaped(l):
+        # the node collections may be handed over as any container: list, tuple, set, numpy array (integer labels), dict keys
+        f = ic.get('form', 'list')
+        if f == 'ndarray' and l and all(isinstance(x, int) and not isinstance(x, bool) for x in l):
+            import numpy as np
+            return np.array(l)
+        if f == 'tuple' or f == 'ndarray': return tuple(l)
+        if f == 'set': return set(l)
+        if f == 'keys': return dict.fromkeys(l).keys()
+        return list(l)
+    kw = {'initial_infecteds': shaped([labels[u] for u in ic['I']])}
     if sir and ic.get('R') is not None:
-        kw['initial_recovereds'] = [labels[u] for u in ic['R']]
+        kw['initial_recovereds'] = shaped([labels[u] for u in ic['R']])
     return kw
 
 
